@@ -228,6 +228,13 @@ private:
       }
       vec.emplace_back(partition);
     }
+    if (vec.empty()) {
+      // every partition became bottom: keep the representation of bottom
+      // (one bottom partition) instead of an empty vector, for which both
+      // is_bottom() and is_top() hold
+      set_to_bottom();
+      return;
+    }
     std::swap(m_partitions, vec);
 
     // update partitions
